@@ -94,6 +94,24 @@ chk("C17",
     "explicit-state model checking (stateright BFS, depth-bounded) of the real term under its mutators against a reference model",
     "5/C17")
 
+E5_TEXT = (" Call histories (E5): every ordered pair of calls - the property's own oracle on 40-110 plain inputs, preceded by any of "
+           "~130 context calls (calls that fail half-way, the same calls in the other formats, look-alike values, format instances "
+           "created and dropped by the caller, values built on another thread) - each pair on a brand-new OS thread, compared with the "
+           "same call made in a fresh process (thorough: every triple over a thinned alphabet). Non-termination of any case is a verdict "
+           "(watchdog on thread CPU time around every library call).")
+E5_TECH = " + exhaustive enumeration of two-call histories on fresh threads against fresh-process baselines (hidden thread-local / static state)"
+for pid, c in CHECKS.items():
+    if pid == "C04":
+        c["text"] += " Non-termination of any case is a verdict (watchdog on thread CPU time). Its entry points are ops of C08's call-history exploration."
+        continue
+    if pid == "C08":
+        c["text"] += (" Call histories (E5): every ordered pair over ~260 ops (enum parser, lexical parser, lexical parse + fold x 3 formats x the alphabet, the other "
+                      "formats' texts, both parsers twice in a row, copied / owned / ASCII-like custom format instances, names holding the supplementary-plane twin "
+                      "of a keyword character), each pair on a brand-new OS thread, compared with the same call in a fresh process; any difference counts.")
+        c["technique"] += E5_TECH
+        continue
+    c["text"] += E5_TEXT
+    c["technique"] += E5_TECH
 ALL = ["C%02d" % i for i in range(1, 18)]
 NOT_YET = {}
 manifest = {
